@@ -126,7 +126,7 @@ def _run_worker(module, spec, workdir, timeout):
         rc, err = pr.returncode, pr.stderr.decode(errors="replace")[-3000:]
     except subprocess.TimeoutExpired as e:
         rc, err = "timeout", (e.stderr or b"").decode(errors="replace")[-1000:]
-    recs, done = [], False
+    recs, done, started = [], False, None
     if os.path.exists(out_path):
         with open(out_path) as f:
             for line in f:
@@ -139,9 +139,14 @@ def _run_worker(module, spec, workdir, timeout):
                     continue
                 if r.get("_done"):
                     done = True
+                elif r.get("status") == "started":
+                    started = r
                 else:
                     recs.append(r)
-    return dict(shard=sid, rc=rc, err=err, done=done, recs=recs, wall=time.time() - t0, spec=spec)
+                    if started is not None and started.get("id") == r.get("id"):
+                        started = None
+    return dict(shard=sid, rc=rc, err=err, done=done, recs=recs, wall=time.time() - t0, spec=spec,
+                in_flight=None if done else started)
 
 
 def run_check(modname, tier, seed, replay=None, only_shards=None):
@@ -188,7 +193,16 @@ def _summarise(mod, prop, tier, seed, results, findings, t0, replay):
     dead = []
     for r in results:
         if not r["done"]:
-            dead.append(dict(shard=r["shard"], rc=r["rc"], err=r["err"][-600:], name=r["spec"].get("name")))
+            dead.append(dict(shard=r["shard"], rc=r["rc"], err=r["err"][-600:], name=r["spec"].get("name"),
+                             in_flight=(r.get("in_flight") or {}).get("id")))
+            if getattr(mod, "DEATH_IS_VIOLATION", False) and r.get("in_flight"):
+                fl = r["in_flight"]
+                r["recs"].append(dict(id=fl.get("id"), cell=fl.get("cell"), status="violated", nontrivial=True,
+                                      digest=digest(fl.get("id")),
+                                      viol=dict(dict(fl.get("coords") or {}), mechanism="worker-died-or-hung",
+                                                rc=str(r["rc"]), detail="worker exit %s while running this case: %s" % (
+                                                    r["rc"], r["err"][-300:].replace("\n", " "))),
+                                      obs=dict(stderr=r["err"][-1500:])))
         for rec in r["recs"]:
             st = rec.get("status", "held")
             counts[st] += 1
